@@ -216,6 +216,7 @@ package router
 //@   requires r.queryCacheHitTotal != nil && r.logger != nil && r.prefetch != nil && r.prefetch.queue != nil && r.prefetchTotal != nil && r.ctx != nil
 //@   modifies rc.Response.Msg, rc.Response.RuleIdx, rc.Response.Cached, rc.Response.IpMark, obj(r.prefetch.queue)
 //@   ensures rc.Response.Msg != nil && wfMsg(rc.Response.Msg)
+//@   ensures [C20:response-is-its-own-object] rc.Response.Msg != m && (rc.Response.Msg.Additionals == nil || fresh(rc.Response.Msg.Additionals))
 //@   ensures [C09:packable] optSmall(rc.Response.Msg) && smallMsg(rc.Response.Msg)
 //@   ensures [C03:header] rc.Response.Msg.ID == old(m.ID) && rc.Response.Msg.Response && rc.Response.Msg.OpCode == old(m.OpCode)
 //@             && rc.Response.Msg.RecursionAvailable && rc.Response.Msg.RecursionDesired == old(m.RecursionDesired)
@@ -263,7 +264,11 @@ package router
 //@   ensures [C03:always-a-response] b != nil && len(b) >= (tcp ? 14 : 12)
 //@   ensures [C09:limit] !tcp && size >= 512 && (resp == nil || old(optSmall(resp))) ==> len(b) <= (size > 65535 ? 65535 : size)
 //@   ensures [C13:framed] tcp && (resp == nil || old(optSmall(resp))) ==> BE16(b, 0) == uint16(len(b) - 2) && len(b) - 2 <= 65535
-//@   ensures [C20:query-left-intact] resp == nil ==> wfMsg(query)
+//@   ensures [C20:query-left-intact] resp == nil || (resp != query && old(resp.Additionals == nil || (!sameObj(resp.Additionals, query.Answers) && !sameObj(resp.Additionals, query.Authorities) && !sameObj(resp.Additionals, query.Additionals)))) ==> wfMsg(query)
+//@   ensures [C20:own-buffer] fresh(b) && rootObj(b)
+
+// The middleware extension points are unused in this repository (nothing appends to them).
+//@ axiom len(MiddlewarePreProcessors) == 0 && len(MiddlewarePostProcessors) == 0
 
 //@ func (r *router) handleServerReq(m *dnsmsg.Msg, rc *RequestContext)
 //@   props C03 C01
@@ -271,8 +276,9 @@ package router
 //@   requires r.queryCacheHitTotal != nil && r.logger != nil && r.queryTotal != nil && r.prefetch != nil && r.prefetch.queue != nil && r.prefetchTotal != nil && r.ctx != nil
 //@   modifies *
 //@   ensures [C03:always-a-response] rc.Response.Msg != nil && wfMsg(rc.Response.Msg)
+//@   ensures [C20:response-is-its-own-object] rc.Response.Msg != m && (rc.Response.Msg.Additionals == nil || fresh(rc.Response.Msg.Additionals))
 //@   ensures [C09:packable] optSmall(rc.Response.Msg) && smallMsg(rc.Response.Msg)
-//@   ensures wfMsg(m) && m.Additionals == old(m.Additionals)
+//@   ensures wfMsg(m) && m.Additionals == old(m.Additionals) && m.Answers == old(m.Answers) && m.Authorities == old(m.Authorities)
 
 // ---- listeners: one response write per handled request ------------------------------------------------
 
